@@ -13,6 +13,8 @@ EXTENDS Integers, Sequences, FiniteSets, TLC
 SetOf(s) == {s[i] : i \in DOMAIN s}
 Types(defs)  == UNION {SetOf(defs[i].types) : i \in DOMAIN defs}
 Stamps(defs) == UNION {SetOf(defs[i].stamps) : i \in DOMAIN defs}
+RECURSIVE AllStamps(_)
+AllStamps(defs) == IF defs = <<>> THEN <<>> ELSE defs[1].stamps \o AllStamps(Tail(defs))   \* in merging order
 Exts(defs)   == UNION {SetOf(defs[i].extensions) : i \in DOMAIN defs}
 ReasonRequired(defs) == \E i \in DOMAIN defs : defs[i].reason_required
 
